@@ -148,6 +148,10 @@ FgLines == <<
   If("nosuchcond", RM), If("ctrue", RM), If("cfalse", RM), If("cerr", RM), Unless("cfalse", RM), Unless("nosuchcond", RM),
   If("linux", If("windows", Ln("nosuchcmd", <<>>))), If("windows", If("nosuchcond", Ln("nosuchcmd", <<>>))),
   If("linux", Unless("windows", RM)), If("linux", If("nosuchcond", RM)),
+  \* every polarity combination of two guards (a negated guard must not change how the next one is read)
+  Unless("windows", If("linux", RM)), Unless("windows", If("windows", RM)), Unless("linux", If("linux", RM)),
+  Unless("windows", Unless("windows", RM)), Unless("windows", Unless("linux", RM)), If("linux", Unless("linux", RM)),
+  Unless("windows", If("linux", Ln("cfail", <<>>))), Unless("windows", If("windows", Ln("cfail", <<>>))),
   If("windows", Ln("nosuchcmd", <<>>)), If("linux", Ln("nosuchcmd", <<>>)),
   If("linux", Ln("", <<>>)), If("windows", Ln("", <<>>)), If("windows", Not(Ln("", <<>>))), If("linux", Not(Ln("", <<>>))),
   If("linux", Not(Ln("exists", <<A>>))), If("windows", Not(Ln("exists", <<A>>))), Unless("windows", Not(Ln("exists", <<E>>))),
